@@ -399,7 +399,12 @@ impl IPFix {
                 result_flowset.extend_from_slice(&template.field_count.to_be_bytes());
 
                 for field in template.fields.iter() {
-                    result_flowset.extend_from_slice(&field.field_type_number.to_be_bytes());
+                    // The enterprise bit is cleared at decode; restore it on the wire.
+                    let field_type_number = match field.enterprise_number {
+                        Some(_) => field.field_type_number | 0x8000,
+                        None => field.field_type_number,
+                    };
+                    result_flowset.extend_from_slice(&field_type_number.to_be_bytes());
                     result_flowset.extend_from_slice(&field.field_length.to_be_bytes());
                     if let Some(enterprise) = field.enterprise_number {
                         result_flowset.extend_from_slice(&enterprise.to_be_bytes());
@@ -415,7 +420,11 @@ impl IPFix {
                     .extend_from_slice(&options_template.scope_field_count.to_be_bytes());
 
                 for field in options_template.fields.iter() {
-                    result_flowset.extend_from_slice(&field.field_type_number.to_be_bytes());
+                    let field_type_number = match field.enterprise_number {
+                        Some(_) => field.field_type_number | 0x8000,
+                        None => field.field_type_number,
+                    };
+                    result_flowset.extend_from_slice(&field_type_number.to_be_bytes());
                     result_flowset.extend_from_slice(&field.field_length.to_be_bytes());
                     if let Some(enterprise) = field.enterprise_number {
                         result_flowset.extend_from_slice(&enterprise.to_be_bytes());
